@@ -268,13 +268,20 @@ func (pc *ProviderCache) Refresh(ctx context.Context) error {
 	pc.seq++
 	seq := pc.seq
 
+	// If the refresh is canceled part-way, what was already learned from the
+	// sources that responded is still published, so that the write map and
+	// the read-only data do not diverge. Providers are not expired in that
+	// case, since not all sources were consulted.
+	var canceled bool
+
 	for _, src := range pc.sources {
 		// Get provider info from each source.
 		fetchedInfos, err := src.FetchAll(ctx)
 		if err != nil {
 			log.Errorw("cannot fetch provider info", "err", err, "source", src)
 			if ctx.Err() != nil {
-				return ctx.Err()
+				canceled = true
+				break
 			}
 			continue
 		}
@@ -324,6 +331,9 @@ func (pc *ProviderCache) Refresh(ctx context.Context) error {
 
 	for pid, cinfo := range pc.write {
 		if cinfo.seq != seq {
+			if canceled {
+				continue
+			}
 			// Provider no longer present.
 			now := time.Now()
 			if cinfo.expiresAt.IsZero() {
@@ -347,6 +357,9 @@ func (pc *ProviderCache) Refresh(ctx context.Context) error {
 	if !needMerge(len(updates), len(read.m)) {
 		verifhook.Point("pcache.publish", 1)
 		pc.read.Store(&readOnly{m: read.m, u: updates})
+		if canceled {
+			return ctx.Err()
+		}
 		return nil
 	}
 
@@ -363,6 +376,9 @@ func (pc *ProviderCache) Refresh(ctx context.Context) error {
 	// Replace old readOnly map with new.
 	verifhook.Point("pcache.publish", 2)
 	pc.read.Store(&readOnly{m: m})
+	if canceled {
+		return ctx.Err()
+	}
 	return nil
 }
 
